@@ -28,6 +28,10 @@ type c07Case struct {
 	Path  []c07Op    `json:"path"` // history reaching the state
 	Op    *c07Op     `json:"op,omitempty"`
 	Text  []string   `json:"text,omitempty"`
+	// Tour: Path is the complete operation list executed on ONE long-lived
+	// instance (accepted, rejected and undo moves; the invariants, which query
+	// every bound, are evaluated after each of them).
+	Tour bool `json:"tour,omitempty"`
 }
 
 // model of a code: block order (by original begin) and per-block order of orig addrs.
@@ -259,6 +263,9 @@ func c07Apply(c *deps.Code, m *c07Model, op c07Op, lens map[uint64]uint64) (stri
 		if after := c07Snapshot(c); after != before {
 			return fmt.Sprintf("rejected %s move %d->%d changed the code: %s -> %s", op.Kind, op.From, op.To, before, after), op.Kind + "-move rejected-but-changed", false
 		}
+		if s := c07Invariants(c, m, lens); s != "" {
+			return fmt.Sprintf("after rejected %s move %d->%d: %s", op.Kind, op.From, op.To, s), op.Kind + "-move invariant-after-rejection", false
+		}
 		return "", "", false
 	}
 	if op.Kind == "ins" {
@@ -395,6 +402,112 @@ func c07Explore(r *eng.Run, s *c07Sys, maxStates int) *eng.Fail {
 	return nil
 }
 
+// c07Tour walks ONE long-lived real instance through a depth-bounded DFS over
+// the moves it accepts (undo = inverse move), evaluating all oracles after
+// every operation. Unlike the BFS above it never rebuilds the instance, so
+// state hidden from the observable snapshot (caches, stale indices) that
+// accumulates over a history is carried along. visit (optional) is called in
+// every node with the live code.
+func c07Tour(r *eng.Run, s *c07Sys, depth int, visit func(c *deps.Code, ops []c07Op) *eng.Fail) *eng.Fail {
+	c, m, err := s.build(nil)
+	if err != nil {
+		return nil
+	}
+	var ops []c07Op
+	mk := func(op *c07Op) c07Case {
+		return c07Case{Segs: s.segs, Entry: s.entry, Path: append([]c07Op{}, ops...), Op: op, Text: c05TextOf(s), Tour: true}
+	}
+	if inv := c07Invariants(c, m, s.lens); inv != "" {
+		return &eng.Fail{Sig: "initial invariant", What: inv, Case: mk(nil)}
+	}
+	var fail *eng.Fail
+	var dfs func(d int) bool
+	dfs = func(d int) bool {
+		if visit != nil {
+			if f := visit(c, ops); f != nil {
+				f.Case = mk(nil)
+				fail = f
+				return false
+			}
+		}
+		if d == 0 {
+			return true
+		}
+		for bi := range m.blocks {
+			n := len(m.blocks[bi])
+			for f := 0; f < n; f++ {
+				for t := -1; t <= n; t++ {
+					if f == t {
+						continue
+					}
+					op := c07Op{Kind: "ins", Block: bi, From: f, To: t}
+					what, cls, accepted := c07Apply(c, m, op, s.lens)
+					r.Trans(1)
+					if what != "" {
+						fail = &eng.Fail{Sig: cls + " (long-lived instance)", What: what, Case: mk(&op)}
+						return false
+					}
+					ops = append(ops, op)
+					if !accepted {
+						continue
+					}
+					r.State(1)
+					if !dfs(d - 1) {
+						return false
+					}
+					undo := c07Op{Kind: "ins", Block: bi, From: t, To: f}
+					what, cls, accepted = c07Apply(c, m, undo, s.lens)
+					r.Trans(1)
+					if what != "" {
+						fail = &eng.Fail{Sig: cls + " (long-lived instance)", What: what, Case: mk(&undo)}
+						return false
+					}
+					ops = append(ops, undo)
+					if !accepted {
+						return false // cannot return: end of this tour (not a property violation)
+					}
+				}
+			}
+		}
+		return true
+	}
+	dfs(depth)
+	r.Trace(1)
+	return fail
+}
+
+func c05TextOf(s *c07Sys) []string {
+	var txt []string
+	for _, sg := range s.segs {
+		for _, w := range sg.Words {
+			txt = append(txt, prog.Dis(w))
+		}
+	}
+	return txt
+}
+
+// c07ReplayTour re-executes a tour's operation list on one fresh instance.
+func c07ReplayTour(s *c07Sys, c c07Case) *eng.Fail {
+	code, m, err := s.build(nil)
+	if err != nil {
+		return nil
+	}
+	if inv := c07Invariants(code, m, s.lens); inv != "" {
+		return &eng.Fail{Sig: "initial invariant", What: inv, Case: c}
+	}
+	ops := append([]c07Op{}, c.Path...)
+	if c.Op != nil {
+		ops = append(ops, *c.Op)
+	}
+	for _, op := range ops {
+		what, cls, _ := c07Apply(code, m, op, s.lens)
+		if what != "" {
+			return &eng.Fail{Sig: cls + " (long-lived instance)", What: what, Case: c}
+		}
+	}
+	return nil
+}
+
 func c07Replay(r *eng.Run, raw json.RawMessage) *eng.Fail {
 	var c c07Case
 	if err := json.Unmarshal(raw, &c); err != nil {
@@ -403,6 +516,9 @@ func c07Replay(r *eng.Run, raw json.RawMessage) *eng.Fail {
 	s, err := newC07Sys(c.Segs, c.Entry)
 	if err != nil {
 		return nil
+	}
+	if c.Tour {
+		return c07ReplayTour(s, c)
 	}
 	code, m, err := s.build(c.Path)
 	if err != nil {
@@ -474,7 +590,7 @@ func c07Codes(r *eng.Run) []*c07Sys {
 func init() {
 	checks["C07"] = eng.Check{
 		Hist: true,
-		Rule: "explicit-state BFS to closure (state = block order + per-block instruction order) on every single-block code of <=3 (thorough 4) instructions over a 14-word alphabet built around the dependency rules and 4 multi-block codes (branches, gaps, mid-code entry, blocks of different sizes); menu in every state: Block.Move(i,j) for all i,j in [-1,n] of every block, Code.Move(i,j) for all i,j in [-1,nb]; successor = fresh real code + replay of the shortest path + the operation. Oracles: admission iff positions valid and target within the bounds reported before the move; rejected => full snapshot unchanged; accepted => model rotation; per state: own bounds, contiguous addresses, indices, Block.Address/Code.Address lookups incl. begin-1/mid/end, every dependency edge (hook) ordered; equal orders reached by different histories must have equal snapshots. Non-trivial = code with at least 2 reachable states.",
+		Rule: "explicit-state BFS to closure (state = block order + per-block instruction order) on every single-block code of <=3 (thorough 4) instructions over a 14-word alphabet built around the dependency rules and 4 multi-block codes (branches, gaps, mid-code entry, blocks of different sizes); menu in every state: Block.Move(i,j) for all i,j in [-1,n] of every block, Code.Move(i,j) for all i,j in [-1,nb]; successor = fresh real code + replay of the shortest path + the operation. Oracles: admission iff positions valid and target within the bounds reported before the move; rejected => full snapshot unchanged; accepted => model rotation; per state: own bounds, contiguous addresses, indices, Block.Address/Code.Address lookups incl. begin-1/mid/end, every dependency edge (hook) ordered; equal orders reached by different histories must have equal snapshots. Second pass per code: a depth-3 (thorough 4) DFS tour over accepted, rejected and undo moves on ONE long-lived instance (never rebuilt) with the same oracles after every operation, so that state hidden from the snapshot (caches) accumulated over a history is exercised. Non-trivial = code with at least 2 reachable states.",
 		Assumptions: []string{"dependency edges read through the add-only hook deps.VerifEdges"},
 		Run: func(r *eng.Run) {
 			codes := c07Codes(r)
@@ -485,6 +601,15 @@ func init() {
 				f := c07Explore(r, codes[i], 5000)
 				r.Eval(1)
 				if f != nil {
+					r.Report(f)
+					r.Outcome(f.Sig)
+					return
+				}
+				tourDepth := 3
+				if !r.Quick() {
+					tourDepth = 4
+				}
+				if f := c07Tour(r, codes[i], tourDepth, nil); f != nil {
 					r.Report(f)
 					r.Outcome(f.Sig)
 				}
